@@ -63,6 +63,24 @@ pred RepInv(r reporter.Reporter) :=
   && (typeis(r, "*report.TotalReporter") ==> TotInv(cellat(report.TotalReporter, payload(r))))
   && (typeis(r, "report.QuantityReporter") ==> cellat(report.QuantityReporter, payload(r)).accumulator != nil)
 
+// Anything handed to FlushOnExit: the reporters above and the raw-book CSV reporter
+macro FlBuf(f Flusher) int :=
+  if typeis(f, "csv.CSVDatabaseReporter") then cellat(csv.CSVDatabaseReporter, payload(f)).output else RepBuf(f)
+pred FlInv(f Flusher) :=
+  (typeis(f, "csv.CSVDatabaseReporter") ==> f != nil && cellat(csv.CSVDatabaseReporter, payload(f)).output != nil) && (!typeis(f, "csv.CSVDatabaseReporter") ==> RepInv(f))
+
+// FlushOnExit (deferred by every command): the reporter's flush error is handed back unless an earlier error is
+// already being returned - so a command that returns nil has flushed successfully (C17)
+func FlushOnExit
+  props C17 C08
+  requires @args err != nil && FlInv(f)
+  modifies *err
+  modifies ghost(bufSticky, sinkFailed, sinkPend, prLen, prSink, prArg, prArgs)
+  let B := FlBuf(f)
+  ensures @sink [C17] BufStep(B)
+  ensures @keeps-error [C17] old(*err) != nil ==> *err == old(*err)
+  ensures @propagates [C17] *err == nil ==> old(*err) == nil && !bufSticky[B] && sinkPend[bufSink[B]] == 0
+
 // the recipe book of a reporter that reads resolved element lists is older than reference lo
 pred RepBookBelow(r reporter.Reporter, lo int) :=
      (typeis(r, "*balance.balanceSingleReporter") ==> DBBelow(cellat(balance.balanceSingleReporter, payload(r)).db, lo))
@@ -111,7 +129,7 @@ func WalkNodesInStream returns (err)
   props C08 C09 C10
   calluse ParseStreamCallback#1 walk
   requires @reporter RepInv(r) && (filter == nil || *filter != nil)
-  modifies *
+  modifies heap(shared.TreeNode), maps(string, *shared.TreeNode), heap(balance.balanceSingleReporter), arrays(float64), maps(string, shared.AccValues), maps(string, bool), maps(string, float64)
   modifies ghost(cbLen, cbErr, cbNode, cbStop, cbRet, cbLineNo, cbLine, cbHeader, cbElems, cbNElems, scRd, scPos, privLo, evOf, accKey, accP, accN, accH, bufSticky, sinkFailed, sinkPend, prLen, prSink, prArg, prArgs, tnodes, tdepth, tmax, tmapOf)
   let B := RepBuf(r)
   ensures @reporter [C17 C08] RepInv(r) && RepBuf(r) == B && BufStep(B)
@@ -121,4 +139,78 @@ func WalkNodesInStream returns (err)
   ensures @fails-on-unreadable [C10] err == nil ==> !RdFailed(rd)
   ensures @quotes-first [C09] forall j int :: {cbErr[j]} old(cbLen) <= j && j < cbLen && cbErr[j] != nil ==> j == cbLen - 1 && err == cbErr[j] && (forall i2 int :: {RdLine(rd, i2)} 0 <= i2 && i2 < cbLineNo[j] - 1 ==> !Malformed(rd, i2, cc))
   ensures @error-or-all [C10] err == nil ==> (forall j int :: {cbStop[j]} old(cbLen) <= j && j < cbLen ==> !cbStop[j] && cbErr[j] == nil)
+
+// ---------------------------------------------------------------------------------------------
+// Commands that need the resolved book hand a callback to WithResolvedDatabase. What such a callback reports on
+// is named by three (uninterpreted) functions of the closure: its output sink, its log reader and the comment
+// character it parses with; every callback defines them from its captured configuration.
+// ---------------------------------------------------------------------------------------------
+fun CbOut(f int) int
+fun CbLog(f int) int
+fun CbCC(f int) uint8
+
+type utils.ResolvedCallback(nl) returns (err)
+  requires @book DBIs(nl) && TreeInv()
+  modifies *
+  modifies ghost(cbLen, cbErr, cbNode, cbStop, cbRet, cbLineNo, cbLine, cbHeader, cbElems, cbNElems, scRd, scPos, privLo, evOf, accKey, accP, accN, accH, bufSink, bufSticky, sinkFailed, sinkPend, prLen, prSink, prArg, prArgs, tnodes, tdepth, tmax, tmapOf)
+  ensures @log-unreadable [C10] err == nil ==> !RdFailed(CbLog(self))
+  ensures @log-malformed [C09] err == nil ==> (forall i int :: {RdLine(CbLog(self), i)} 0 <= i && i < RdN(CbLog(self)) ==> !Malformed(CbLog(self), i, CbCC(self)))
+  ensures @reports-loss [C17] err == nil ==> (sinkFailed[CbOut(self)] ==> old(sinkFailed[CbOut(self)])) && sinkPend[CbOut(self)] == 0
+
+// WithResolvedDatabase: load the book (fails on a malformed or unreadable book, C09 / C10), resolve it (C01 / C11),
+// then run the callback; its error is the command's error.
+// The ghost constants RDB / RDBdom / RDBlen of the accounting specification (package reporter) are DEFINED here to
+// be the resolved book: they occur nowhere else in this function's contract, the side conditions of the definition
+// are checked (book-records), and the definition itself is listed as an assumption in the evidence.
+func WithResolvedDatabase returns (err)
+  props C08 C09 C10 C17 C01
+  requires @cb cb != nil && TreeInv()
+  funcparam cb utils.ResolvedCallback
+  calluse Resolve#1 any
+  modifies *
+  modifies ghost(cbLen, cbErr, cbNode, cbStop, cbRet, cbLineNo, cbLine, cbHeader, cbElems, cbNElems, scRd, scPos, privLo, evOf, accKey, accP, accN, accH, bufSink, bufSticky, sinkFailed, sinkPend, prLen, prSink, prArg, prArgs, tnodes, tdepth, tmax, tmapOf)
+  let rd := payload(dbStream)
+  let cc := pc.CommentChar
+  ensures @book-unreadable [C10] err == nil ==> !RdFailed(rd)
+  ensures @book-malformed [C09] err == nil ==> (forall i int :: {RdLine(rd, i)} 0 <= i && i < RdN(rd) ==> !Malformed(rd, i, cc))
+  ensures @log-unreadable [C10] err == nil ==> !RdFailed(CbLog(cb))
+  ensures @log-malformed [C09] err == nil ==> (forall i int :: {RdLine(CbLog(cb), i)} 0 <= i && i < RdN(CbLog(cb)) ==> !Malformed(CbLog(cb), i, CbCC(cb)))
+  ensures @reports-loss [C17] err == nil ==> (sinkFailed[CbOut(cb)] ==> old(sinkFailed[CbOut(cb)])) && sinkPend[CbOut(cb)] == 0
+  ghost after call 1 Resolve {
+    assert @book-records err == nil ==> (forall k string :: {nl[k]} k in nl ==> nl[k] != nil && allocated(nl[k]) && arr(nl[k].Elements) < alloc() && len(nl[k].Elements) >= 0)
+    assume err == nil ==> DBIs(nl)
+  }
+
+// ---------------------------------------------------------------------------------------------
+// WalkWithReporter (register): the reporter is chosen by a callback
+// ---------------------------------------------------------------------------------------------
+type utils.ReporterCallback(rpc, nl) returns (r)
+  requires @book DBIs(nl) && TreeInv()
+  modifies ghost(bufSink, bufSticky, tnodes, tdepth, tmax, tmapOf, accP, accN, accH)
+  ensures @reporter RepInv(r) && fresh(RepBuf(r)) && RepBookBelow(r, alloc())
+  ensures @sink bufSink == store(old(bufSink), RepBuf(r), payload(rpc.Output)) && bufSticky == store(old(bufSticky), RepBuf(r), false)
+
+func WalkWithReporter$1 returns (err)
+  props C08 C09 C10 C17
+  refines utils.ResolvedCallback
+  dyncall 1 utils.ReporterCallback
+  modifies *
+  captured rpCb != nil && rpc.Output != nil && !typeis(rpc.Output, "*bufio.Writer") && !typeis(rpc.Output, "*encoding/csv.Writer")
+  defines CbOut(self) == payload(rpc.Output) && CbLog(self) == payload(logStream) && CbCC(self) == pc.CommentChar
+
+func WalkWithReporter returns (err)
+  props C08 C09 C10 C17
+  requires @sink rpCb != nil && rpc.Output != nil && !typeis(rpc.Output, "*bufio.Writer") && !typeis(rpc.Output, "*encoding/csv.Writer") && TreeInv()
+  funcparam rpCb utils.ReporterCallback
+  modifies *
+  modifies ghost(cbLen, cbErr, cbNode, cbStop, cbRet, cbLineNo, cbLine, cbHeader, cbElems, cbNElems, scRd, scPos, privLo, evOf, accKey, accP, accN, accH, bufSink, bufSticky, sinkFailed, sinkPend, prLen, prSink, prArg, prArgs, tnodes, tdepth, tmax, tmapOf)
+  let out := payload(rpc.Output)
+  let lrd := payload(logStream)
+  let drd := payload(dbStream)
+  let cc := pc.CommentChar
+  ensures @book-unreadable [C10] err == nil ==> !RdFailed(drd)
+  ensures @book-malformed [C09] err == nil ==> (forall i int :: {RdLine(drd, i)} 0 <= i && i < RdN(drd) ==> !Malformed(drd, i, cc))
+  ensures @log-unreadable [C10] err == nil ==> !RdFailed(lrd)
+  ensures @log-malformed [C09] err == nil ==> (forall i int :: {RdLine(lrd, i)} 0 <= i && i < RdN(lrd) ==> !Malformed(lrd, i, cc))
+  ensures @reports-loss [C17] err == nil ==> (sinkFailed[out] ==> old(sinkFailed[out])) && sinkPend[out] == 0
 @*/
